@@ -7,9 +7,10 @@ cfg   des:<sp>:<A|M> | cdes:<sp>:<A|M> | det:<degree> | bc | log | ad:<T|F> | ha
       | pass:<T|F>:<cfg>
 op    fit;<inp>;<seasonal|none>;<N|T|F>;<ok|E:kind>
       upd;<inp>;<D|T|F>
-      tr;<inp>;<aux|none>
-      inv;<inp>;<k|->;<aux|none>          (k: use the series returned by op k when it returned one)
-      ft;<inp>;<seasonal|none>;<N|T|F>;<ok|E:kind>;<aux|none>
+      tr;<inp>;<aux>
+      inv;<inp>;<k|->;<aux>               (k: use the series returned by op k when it returned one)
+      ft;<inp>;<seasonal|none>;<N|T|F>;<ok|E:kind>;<aux>
+aux   none | <values>=<values>|...        (the library function tabulated on the possible inputs)
 inp   s:<labels>:<values> | notseries | fidx
 out   one token per op: ok | E:kind | <labels>:<values>;  if shift ≠ 0 the same history with all
       labels shifted follows after `##`.
@@ -82,7 +83,7 @@ structure RawOp where
   ref : Option Nat := none
   d : FitData := {}
   up : Option Bool := none
-  aux : Option (List Val) := none
+  aux : List (List Val × List Val) := []
 
 def parseSeasonal? (s : String) : Option (Option (List Rat)) :=
   if s == "none" then some none else (parseRatList? s).map some
@@ -93,8 +94,16 @@ def parseIsSeasonal? (s : String) : Option (Option Bool) :=
 def parseFitErr? (s : String) : Option (Option Err) :=
   if s == "ok" then some none else (parseErr? s).map some
 
-def parseAux? (s : String) : Option (Option (List Val)) :=
-  if s == "none" then some none else (parseORatList? s).map some
+/-- `key=value|key=value`: the library function tabulated on the inputs the call may receive -/
+def parseAux? (s : String) : Option (List (List Val × List Val)) :=
+  if s == "none" then some []
+  else (s.splitOn "|").mapM (fun part =>
+    match part.splitOn "=" with
+    | [k, v] => do
+        let k ← parseORatList? k
+        let v ← parseORatList? v
+        pure (k, v)
+    | _ => none)
 
 def parseOp? (s : String) : Option RawOp :=
   match s.splitOn ";" with
@@ -126,15 +135,11 @@ def parseOp? (s : String) : Option RawOp :=
       pure { kind := "ft", inp := inp, d := ⟨seas, iss, fe⟩, aux := aux }
   | _ => none
 
-def inputValues : Input → List Val
-  | .series z => values z
-  | _ => []
-
 /-- the library function for this call: defined (by the supplied table) only on the values it was
-evaluated on by the harness -/
-def tableFn (key : List Val) (aux : Option (List Val)) : List Val → List Val :=
-  fun xs => match aux with
-    | some a => if xs == key then a else []
+evaluated on by the harness; anywhere else it returns `[]` (the model then answers `E:nodata`) -/
+def tableFn (aux : List (List Val × List Val)) : List Val → List Val :=
+  fun xs => match aux.find? (fun kv => kv.1 == xs) with
+    | some kv => kv.2
     | none => []
 
 def resolve (c : Int) (outs : Array Out) (r : RawOp) : Input :=
@@ -145,7 +150,7 @@ def resolve (c : Int) (outs : Array Out) (r : RawOp) : Input :=
   | none => shiftInput c r.inp
 
 def toOp (r : RawOp) (inp : Input) : Option Op :=
-  let f := tableFn (inputValues inp) r.aux
+  let f := tableFn r.aux
   match r.kind with
   | "fit" => some (.fit inp r.d)
   | "upd" => some (.update inp r.up)
